@@ -457,11 +457,51 @@ def cross_process_pickle(rec, quick):
         sys.modules.pop('vt_c14_xproc', None)
 
 
+def interrupted_hash(rec):
+    """hash() of a tree too deep for the current recursion limit raises RecursionError; hashing the same
+    object again with room to spare must give the hash of an equal, freshly parsed object (nothing of the
+    abandoned attempt may stick).  Unhashable field values of other kinds: a set / bytearray inside a
+    field next to an equal object holding the same."""
+    r = observe.compile_grammar('start = Num between { left: "+" }\nclass Num { d: /[0-9]/ }\n')
+    if r[0] != 'ok':
+        return
+    g = r[1]
+    text = '+'.join('123456789'[i % 9] for i in range(250))
+    a, b = g.parse(text), g.parse(text)
+    old = sys.getrecursionlimit()
+    depth = 0
+    f = sys._getframe()
+    while f is not None:
+        depth += 1
+        f = f.f_back
+    interrupted = False
+    try:
+        sys.setrecursionlimit(depth + 150)
+        try:
+            hash(a)
+        except RecursionError:
+            interrupted = True
+    finally:
+        sys.setrecursionlimit(max(old, 20000))
+    rec.case()
+    rec.count('interrupted_hashes', int(interrupted))
+    rec.nontrivial(('interrupted-hash', interrupted))
+    try:
+        ha, hb = hash(a), hash(b)
+        if a == b and ha != hb:
+            rec.violation('hash:equal-objects-differ:after-interrupted-hash', 'a == b => hash(a) == hash(b), hash(a) first attempted under a tight recursion limit',
+                          dict(kind='interrupted-hash', terms=250, interrupted=interrupted), hb, ha)
+    finally:
+        sys.setrecursionlimit(old)
+
+
 def run_shard(rec):
     quick = rec.tier == 'quick'
     rec.deadline = time.time() + (300 if quick else 600)
     if rec.shard == 1:
         cross_process_pickle(rec, quick)
+    if rec.shard == 2:
+        interrupted_hash(rec)
     run_module(rec, named=False, nforests=60 if quick else 2500, quick=quick)
     run_module(rec, named=True, nforests=60 if quick else 2500, quick=quick)
 
@@ -471,6 +511,8 @@ def replay(rec, rep):
     case = rep['case']
     if case.get('kind') == 'xproc':
         return cross_process_pickle(rec, True)
+    if case.get('kind') == 'interrupted-hash':
+        return interrupted_hash(rec)
     rec.seed = case.get('seed', rec.seed)
     import random
     rec.rng = random.Random((rec.seed * 1000003 + case.get('shard', 0)) & 0xffffffff)
